@@ -167,8 +167,14 @@ macro_rules! run_pool {
 pub fn run(input: &mut dyn BufRead, out: &mut dyn Write, _args: &[String]) -> R {
     let db = Arc::new(huginn_net_db::Database::load_default().map_err(|e| e.to_string())?);
     crate::clock::set_ms(1_700_000_000_000);
+    // after three runs in which queued packets were never taken up (a worker is gone), the rest of the batch is answered with "skipped"
+    let mut lost = 0u32;
     for v in crate::lines(input) {
         let id = v["id"].clone();
+        if lost >= 3 {
+            writeln!(out, "{}", json!({"id": id, "skipped": "three earlier runs of this batch lost queued packets"})).map_err(|e| e.to_string())?;
+            continue;
+        }
         let (nw, qs, bs, to) = (v["workers"].as_u64().unwrap_or(1) as usize, v["queue"].as_u64().unwrap_or(1) as usize, v["batch"].as_u64().unwrap_or(1) as usize, v["timeout_ms"].as_u64().unwrap_or(5));
         let cap = v["cap"].as_u64().unwrap_or(1000) as usize;
         let with_db = v["matcher"].as_bool().unwrap_or(true);
@@ -242,6 +248,9 @@ pub fn run(input: &mut dyn BufRead, out: &mut dyn Write, _args: &[String]) -> R 
             }
             Err(e) => json!({"id": id, "panic": e}),
         };
+        if o["timed_out"].as_bool() == Some(true) {
+            lost += 1;
+        }
         writeln!(out, "{o}").map_err(|e| e.to_string())?;
     }
     Ok(())
